@@ -58,9 +58,17 @@ def _valid(draw):
 
 @st.composite
 def _cases(draw, tier):
-    klass = draw(st.sampled_from(['corrupt', 'corrupt', 'random', 'fault', 'fault', 'valid', 'stress']))
+    klass = draw(st.sampled_from(['corrupt', 'corrupt', 'random', 'fault', 'fault', 'valid', 'stress', 'binary']))
     pp = draw(st.sampled_from([None, None, 'listing', 'hex', 'intel_hex', 'minhex']))
     pre = draw(st.booleans())
+    if klass == 'binary':
+        # arbitrary bytes (invalid UTF-8, NUL, control characters, CR/LF mixes) mixed with a few real lines
+        chunks = draw(st.lists(st.one_of(st.binary(max_size=40),
+                                         st.sampled_from([b'nop\n', b'.byte 1\r\n', b'lbl:\n', b'\xff\xfe', b'\x00', b'\x0b', b'\x0c',
+                                                          b'\xc3\xa9 = 5\n', b'.cstr "\xe2\x82\xac"\n', b'\r', b'\n\n'])),
+                               min_size=1, max_size=8))
+        cfg = draw(G.layout_isa(zones=False, address_sizes=(16,)))
+        return {'klass': klass, 'isa': cfg, 'files': {'main.asm': b''.join(chunks).hex()}, 'hex': True, 'pp': pp, 'pre': pre}
     if klass == 'stress':
         # long identifiers, long runs of blanks, deep nesting, long operator chains - legal and almost-legal
         n = draw(st.integers(18, 70))
@@ -247,7 +255,7 @@ def scaling_probe(argv, files):
     time each run.  Returns the (length, seconds) series; exponential growth in the run length is the confirmation."""
     series = []
     for length in (10, 12, 14, 16, 18, 20, 22):
-        fs = {k: (_shrink_runs(v, length) if k.endswith('.asm') else v) for k, v in files.items()}
+        fs = {k: (_shrink_runs(v, length) if k.endswith('.asm') and isinstance(v, str) else v) for k, v in files.items()}
         r = runner.run_forked(argv, fs, timeout_s=12, crosscheck=False)
         series.append((length, None if r.timed_out else round(r.wall_s, 3)))
         if r.timed_out:
@@ -270,6 +278,8 @@ def execute(case, ctx):
     klass = case['klass']
     if 'files' in case:
         files = dict(case['files'])
+        if case.get('hex'):
+            files = {k: bytes.fromhex(v) for k, v in files.items()}
     else:
         items = case['items']
         if klass == 'fault':
@@ -288,7 +298,8 @@ def execute(case, ctx):
         argv += ['--pretty-print', '-t', case['pp'], '--pretty-print-output', 'pp.txt']
     argv.append('main.asm')
     res = runner.run_subprocess(argv, files, timeout_s=10)
-    detail = {'class': klass, 'fault': case.get('fault'), 'sources': {k: v for k, v in files.items() if k.endswith('.asm')},
+    detail = {'class': klass, 'fault': case.get('fault'),
+              'sources': {k: (v if isinstance(v, str) else repr(v)) for k, v in files.items() if k.endswith('.asm')},
               'argv': argv, 'preexisting_output': case['pre'], 'run': res.brief(), 'general': cfg['general']}
     findings = []
     classes = ['class:' + klass, 'pp:' + str(case['pp']), 'pre:' + str(case['pre'])]
@@ -317,7 +328,7 @@ def execute(case, ctx):
         findings.append(Finding('C14/success-reported-for-faulty-program/' + case['fault'], detail))
     tb = 'traceback' if 'Traceback' in res.stderr else ('clean-error' if res.exit_code else 'success')
     classes += ['outcome:' + tb]
-    nt = klass == 'fault' or bool(''.join(detail['sources'].values()).strip())
+    nt = klass == 'fault' or bool(''.join(str(v) for v in detail['sources'].values()).strip())
     return Outcome(findings, nt, classes, 1, sample={'class': klass, 'fault': case.get('fault'), 'argv': argv,
                                                      'sources': detail['sources'], 'exit': res.exit_code})
 
